@@ -344,8 +344,12 @@ fn session(c: &MpCase) -> Verdict {
                 let mut protos: Vec<_> = match catch(|| parties.iter_mut().map(|p| p.generate_relin_keys()).collect::<Vec<_>>()) { Ok(p) => p, Err(p) => { fails.add(format!("{key}/start"), format!("{what}: generate_relin_keys panicked: {p}")); break; } };
                 // event-driven schedule: a party runs step2 as soon as its round-1 inbox is complete; a round-2 message can be
                 // delivered once sender and receiver have both run step2
-                let mut msgs1: Vec<Vec<u8>> = vec![]; let mut broke = false;
-                for (i, p) in protos.iter().enumerate() { let mut b = vec![]; match catch(|| p.send_step1(&mut b)) { Ok(Ok(())) => msgs1.push(b), other => { fails.add(format!("{key}/round"), format!("{what}: party {i} send_step1 failed: {:?}", other.map(|r| r.map_err(|e| e.to_string())))); broke = true; break; } } }
+                // late senders (selector bits 4 and 5 of the party's order entry): the round-1 / round-2 message is produced only when its
+                // first delivery is due, after the party may have received other messages of that round
+                let late1 = |s: usize| (st.order[s % st.order.len()] >> 4) & 1 == 1;
+                let late2 = |s: usize| (st.order[s % st.order.len()] >> 5) & 1 == 1;
+                let mut msgs1: Vec<Option<Vec<u8>>> = vec![]; let mut broke = false;
+                for (i, p) in protos.iter().enumerate() { if late1(i) { msgs1.push(None); continue; } let mut b = vec![]; match catch(|| p.send_step1(&mut b)) { Ok(Ok(())) => msgs1.push(Some(b)), other => { fails.add(format!("{key}/round"), format!("{what}: party {i} send_step1 failed: {:?}", other.map(|r| r.map_err(|e| e.to_string())))); broke = true; break; } } }
                 if broke { break; }
                 let drop_r1 = drop1.map(|d| pairs[pick_idx(d, pairs.len())]);
                 let drop_r2 = drop2.map(|d| pairs[pick_idx(d, pairs.len())]);
@@ -359,12 +363,16 @@ fn session(c: &MpCase) -> Verdict {
                     if enabled.is_empty() { break; }
                     let e = enabled[pick_idx(st.order[k % st.order.len()], enabled.len())]; k += 1;
                     let (rd, r, s) = pending.remove(e);
-                    let res = if rd == 1 { catch(|| protos[r].receive_step1(s, &mut msgs1[s].as_slice())) } else { let m = msgs2[s].clone().unwrap(); catch(|| protos[r].receive_step2(s, &mut m.as_slice())) };
+                    if rd == 1 && msgs1[s].is_none() { let mut b = vec![]; match catch(|| protos[s].send_step1(&mut b)) { Ok(Ok(())) => msgs1[s] = Some(b), _ => { fails.add(format!("{key}/round"), format!("{what}: party {s} send_step1 (after receiving) failed")); broke = true; break; } } }
+                    if rd == 2 && msgs2[s].is_none() { let mut b = vec![]; match catch(|| protos[s].send_step2(&mut b)) { Ok(Ok(())) => msgs2[s] = Some(b), _ => { fails.add(format!("{key}/round"), format!("{what}: party {s} send_step2 (after receiving) failed")); broke = true; break; } } }
+                    let res = if rd == 1 { let m = msgs1[s].clone().unwrap(); catch(|| protos[r].receive_step1(s, &mut m.as_slice())) } else { let m = msgs2[s].clone().unwrap(); catch(|| protos[r].receive_step2(s, &mut m.as_slice())) };
                     match res { Ok(Ok(())) => {}, other => { fails.add(format!("{key}/round"), format!("{what}: party {r} receiving the round-{rd} message of party {s} failed: {:?}", other.map(|r| r.map_err(|e| e.to_string())))); broke = true; break; } }
                     trace.push((rd, r, s));
                     if rd == 1 { got1[r] += 1; if got1[r] == np - 1 {
+                        // a late sender has sent its round-1 message at the latest before it moves on to step 2
+                        if msgs1[r].is_none() { let mut b = vec![]; match catch(|| protos[r].send_step1(&mut b)) { Ok(Ok(())) => msgs1[r] = Some(b), _ => { fails.add(format!("{key}/round"), format!("{what}: party {r} send_step1 (after receiving) failed")); broke = true; break; } } }
                         if let Err(p) = catch(|| protos[r].step2()) { fails.add(format!("{key}/step2"), format!("{what}: party {r} has every round-1 message but step2() panicked: {p}")); broke = true; break; }
-                        let mut b = vec![]; match catch(|| protos[r].send_step2(&mut b)) { Ok(Ok(())) => msgs2[r] = Some(b), _ => { fails.add(format!("{key}/round"), format!("{what}: party {r} send_step2 failed")); broke = true; break; } }
+                        if !late2(r) { let mut b = vec![]; match catch(|| protos[r].send_step2(&mut b)) { Ok(Ok(())) => msgs2[r] = Some(b), _ => { fails.add(format!("{key}/round"), format!("{what}: party {r} send_step2 failed")); broke = true; break; } } }
                         done2[r] = true;
                     } }
                 }
@@ -550,7 +558,7 @@ pub fn def() -> PropertyDef {
     PropertyDef {
         id: "C18",
         level: "exploration",
-        rule: "sessions of 1..4 protocol runs (public key, relinearization keys [two rounds, step2 interleaved per party], secret-key reveal, collective decryption, key switch to a fresh collective key, public-key switch, cipher->shares, shares->cipher, shares round trip) among n = 2..6 parties over BFV/BGV/CKKS contexts with 2..4 primes, N = 4..64 (thorough 512), inputs at generated levels and representations, encrypted under the summed key or the collective public key; the messages of every round delivered in a generated order, optionally one message withheld; per party and round a generated bit makes it a late sender, which produces its message only when its first delivery is due, after it may have received others'. exhaustive: every delivery order for n = 2 and 3 (quick: every 7th for n = 3) and every single withheld message, per protocol and scheme at N = 8. Oracle: outputs equal across parties; collective keys satisfy k0 + k1*s [- P*s^2] = small error for s = sum of the secret keys (added up by the harness) and work under an ordinary decryptor for s; decrypted plaintexts equal the encrypted ones whenever the worst-case noise model (secret norm n) stays below the modulus; shares add up to the slots mod t; a party with an incomplete inbox refuses, everybody else finishes. non-trivial: something was asserted and (n >= 3 or the delivery order is not the canonical one or a message was withheld).",
+        rule: "sessions of 1..4 protocol runs (public key, relinearization keys [two rounds, step2 interleaved per party], secret-key reveal, collective decryption, key switch to a fresh collective key, public-key switch, cipher->shares, shares->cipher, shares round trip) among n = 2..6 parties over BFV/BGV/CKKS contexts with 2..4 primes, N = 4..64 (thorough 512), inputs at generated levels and representations, encrypted under the summed key or the collective public key; the messages of every round delivered in a generated order, optionally one message withheld; per party and round (both rounds of the relinearization-key protocol included) a generated bit makes it a late sender, which produces its message only when its first delivery is due (and before it moves on to the next step), after it may have received others'. exhaustive: every delivery order for n = 2 and 3 (quick: every 7th for n = 3) and every single withheld message, per protocol and scheme at N = 8. Oracle: outputs equal across parties; collective keys satisfy k0 + k1*s [- P*s^2] = small error for s = sum of the secret keys (added up by the harness) and work under an ordinary decryptor for s; decrypted plaintexts equal the encrypted ones whenever the worst-case noise model (secret norm n) stays below the modulus; shares add up to the slots mod t; a party with an incomplete inbox refuses, everybody else finishes. non-trivial: something was asserted and (n >= 3 or the delivery order is not the canonical one or a message was withheld).",
         assumptions: vec!["noise model DESIGN.md §4 with ||s|| <= n and multiparty key-switching-key error 2 n B (N n + 1)", "shares->cipher is observed at party 0, the aggregating party of the documented usage"],
         subs: vec![Sub::enumerate("all_orders_small_n", exhaustive, session), Sub::prop("random_sessions", 200_000, 1_000_000, 0.4, mp_case, session)],
     }
